@@ -43,10 +43,30 @@ impl CustomSection for Spy {
 /// insert `i32.const 0; drop` at the start of local function #k of the input (byte surgery on the
 /// code section), returning the new binary: the *expected* module for the "inserted" edit
 pub fn insert_at_start(wasm: &[u8], a: &WModule, local_k: usize) -> Option<Vec<u8>> {
+    insert_at(wasm, a, local_k, 0)
+}
+
+/// position (= operator index = index in the entry sequence) for the edits that splice into the
+/// middle / at the end of the first local function; None when the function is not straight-line
+/// (nops, nested sequences or dead code make operator indices and sequence positions differ)
+pub fn splice_position(a: &WModule, edit: &str) -> Option<usize> {
+    let body = a.funcs.iter().filter_map(|f| f.body.as_ref()).next()?;
+    if edit == "insert" {
+        return Some(0);
+    }
+    let straight = body.ops.iter().all(|(o, _)| !matches!(o.name, "Nop" | "Block" | "Loop" | "If" | "Else" | "Br" | "BrIf" | "BrTable" | "Return" | "Unreachable" | "ReturnCall" | "ReturnCallIndirect"));
+    if !straight || body.ops.len() < 3 {
+        return None;
+    }
+    Some(if edit == "insert-mid" { 2.min(body.ops.len() - 1) } else { body.ops.len() - 1 })
+}
+
+/// `i32.const 0; drop` spliced in front of operator #`op_index` of local function #`local_k`
+pub fn insert_at(wasm: &[u8], a: &WModule, local_k: usize, op_index: usize) -> Option<Vec<u8>> {
     let ins = [0x41u8, 0x00, 0x1a];
     let locals: Vec<&wmodel::Body> = a.funcs.iter().filter_map(|f| f.body.as_ref()).collect();
     let target = locals.get(local_k)?;
-    let first_op = target.ops.first()?.1 as usize;
+    let first_op = target.ops.get(op_index)?.1 as usize;
     // rebuild the code section
     let cstart = a.code_contents_start? as usize;
     // find the section header: id 10 followed by the size LEB ending right before cstart
@@ -145,21 +165,27 @@ pub fn check_case(c: &Case) -> CaseResult {
     // the reference module against which the output is aligned
     let mut reference = a.clone();
     let mut shift_func: Option<u32> = None;
+    let mut shift_at = 0usize;
     match edit.as_str() {
         "gc" => {
             if gc(&mut m).is_err() {
                 return r;
             }
         }
-        "insert" => {
+        "insert" | "insert-mid" | "insert-end" => {
             // first local function in input order
             let k = 0usize;
+            let pos = match splice_position(&a, &edit) {
+                Some(p) => p,
+                None => return r,
+            };
+            shift_at = pos;
             let fid = match m.funcs.iter_local().map(|(id, _)| id).next() {
                 Some(f) => f,
                 None => return r,
             };
-            m.funcs.get_mut(fid).kind.unwrap_local_mut().builder_mut().func_body().const_at(0, ir::Value::I32(0)).drop_at(1);
-            let nb = match insert_at_start(&c.wasm, &a, k) {
+            m.funcs.get_mut(fid).kind.unwrap_local_mut().builder_mut().func_body().const_at(pos, ir::Value::I32(0)).drop_at(pos + 1);
+            let nb = match insert_at(&c.wasm, &a, k, pos) {
                 Some(b) => b,
                 None => {
                     r.note = Some(format!("C11: could not build the expected module for the insert edit on {}:{}", c.family, c.coords));
@@ -228,7 +254,7 @@ pub fn check_case(c: &Case) -> CaseResult {
     }
     // expected output offset of original-input operator (fi,k)
     let expected = |fi: u32, k: usize| -> Option<u64> {
-        let kk = if shift_func == Some(fi) { k + 2 } else { k };
+        let kk = if shift_func == Some(fi) && k >= shift_at { k + 2 } else { k };
         let corr = maps.bodies.get(&fi)?;
         let j = (*corr.op_map.get(kk)?)?;
         let bf = &b.funcs[corr.b as usize];
@@ -323,7 +349,7 @@ pub fn run(args: &Args) -> i32 {
     base.extend(crate::props::bodies::cases(args, &mut ev));
     let mut cases = vec![];
     for b in base {
-        for e in ["none", "insert", "gc"] {
+        for e in ["none", "insert", "gc", "insert-mid", "insert-end"] {
             if b.family == "body" && e == "gc" {
                 continue;
             }
